@@ -143,7 +143,10 @@ def generate(prop, rng, tier):
                                      'near_miss'])
             op['variant'] = rng.randrange(8)
         ops.append(op)
-    if c10 and rng.random() < 0.2:
+    if rng.random() < 0.12:
+        ops.append({'t': 'mutate_held', 'i': rng.randint(0, 2),
+                    'k': rng.randrange(8), 'fill': rng.choice(GARBAGE)})
+    elif c10 and rng.random() < 0.2:
         # aliased call on an element the operator itself holds (translation,
         # data term, prior ...): consumes the operator, hence last
         ops.append({'t': 'alias_held', 'i': 0, 'k': rng.randrange(8)})
@@ -645,6 +648,56 @@ class Run(object):
             self.ctx.probe('alias-held-differs:' + type(op).__name__)
         self.ctx.fired('alias-held-element')
         self.ctx.event('alias_held', self.dig(e))
+
+    def do_mutate_held(self, o):
+        """The caller changes, in place, an element it had handed to the
+        operator (translation, data term, multiplicand ...) between two
+        calls.  Whether the operator follows the change or works on a copy is
+        its business -- but its in-place and out-of-place calls must agree
+        with each other afterwards (seed e10: a value derived from the held
+        element kept from the first in-place call).  Consumes the operator:
+        the replica no longer describes it, hence last."""
+        op = self.op
+        if self.is_functional:
+            raise Reject('functional')
+        held = _held_elements(op, op.domain)
+        if op.range != op.domain:
+            held = held + _held_elements(op, op.range)
+        x = self.xs[o['i']]
+        held = [h for h in held if SP.is_elem(h) and h is not x]
+        if not held or not SP.is_elem(x):
+            raise Reject('operator holds no element')
+        e = held[o['k'] % len(held)]
+        with seams.allocator('zero'):
+            r0 = op.range.element()
+        fill_elem(r0, o['fill'], salt=3)
+        with seams.allocator(self.k1, salt=28):
+            try:
+                op(x, out=r0)          # a first in-place call
+            except Exception:
+                raise Reject('call raises')
+        with seams.allocator('zero'):
+            e.lincomb(0.5, e, 0.25, e.space.one()) if hasattr(
+                e.space, 'one') else e.lincomb(0.5, e)
+        self.refs.clear()
+        self.held = []
+        with seams.allocator(self.k1, salt=29):
+            try:
+                y1 = op(x)
+            except Exception:
+                raise Reject('call raises after the change')
+            with seams.allocator('zero'):
+                r = op.range.element()
+            fill_elem(r, o['fill'], salt=4)
+            ret = self.call('ip', lambda: op(x, out=r))
+        ok, d = SP.close(r, y1, self.tol(y1, x))
+        self.ctx.fired('held-element-changed-between-calls')
+        if not ok:
+            self.viol('ip-differs-after-held-element-changed',
+                      'after the caller changed an element the operator '
+                      'holds, op(x, out=y) differs from op(x) on the same '
+                      'operator by {:.3g}'.format(d))
+        self.ctx.event('mutate_held', self.dig(r))
 
     def do_raw(self, o):
         """A convertible non-element input (array of the right or another
@@ -1188,7 +1241,8 @@ def _execute(prop, plan, ctx):
     fn = {'oop': run.do_oop, 'ip': run.do_ip, 'alias': run.do_alias,
           'reject_in': run.do_reject_in, 'reject_out': run.do_reject_out,
           'scribble': run.do_scribble, 'alias_held': run.do_alias_held,
-          'raw': run.do_raw, 'deriv_mutate': run.do_deriv_mutate}
+          'raw': run.do_raw, 'deriv_mutate': run.do_deriv_mutate,
+          'mutate_held': run.do_mutate_held}
     done = 0
     for o in plan['ops']:
         try:
